@@ -50,6 +50,9 @@ Definition run_op (k : kb) (w : pworld) (op : sx) : pworld * sx :=
       (PW s' (upd (pw_leaves w) (dnat i) (dbnd b)) (pw_query w) roots, L [estate n s'])
   | L [A 10] =>  (* flush: every registered object back to UNKNOWN, stored data erased *)
       (PW (fun _ => unknown) (fun _ => unknown) (pw_query w) roots, L [estate n (fun _ => unknown)])
+  | L [A 11; i; wl] =>  (* add_knowledge(i, world=wl) on a formula of the model: its bounds AND its stored data become the world *)
+      let s' := upd s (dnat i) (dbnd wl) in
+      (PW s' (upd (pw_leaves w) (dnat i) (dbnd wl)) (pw_query w) (roots ++ [dnat i]), L [estate n s'])
   | L [A 13; r] =>  (* a later add_knowledge(r) call: r joins the registered roots; no bounds change *)
       (PW s (pw_leaves w) (pw_query w) (roots ++ [dnat r]), L [estate n s])
   | L [A 9] =>  (* has_contradiction over all registered objects (= reachable from the roots) *)
